@@ -1,6 +1,7 @@
 import PkgModel.Generated.PySrc
 import PkgModel.PyParser
 import PkgProofs.Lemmas.PyRt
+import PkgProofs.Lemmas.SrcRobust
 /-!
 # Translated source of the marker parser (`_parser.py`) = the model (`Mk.parse…`)
 -/
@@ -213,9 +214,14 @@ theorem s_pi : ofString "python_implementation" = Mk.s_python_implementation := 
 /-- `process_env_var` on the text after `.replace(".", "_")` -/
 theorem process_env_var_eq_model (t : Str) :
     Gen.PySrc.process_env_var (.str (t.map fun c => if c == 46 then 95 else c)) = .ok (ofNode (Mk.processEnvVar t)) := by
-  simp only [Gen.PySrc.process_env_var, PyRt.contains, pure_ok, ok_bind, List.any_cons, List.any_nil, eq_str, node_init,
-    Mk.processEnvVar, s_ppi, s_pi, Bool.or_false]
-  split <;> rfl
+  simp only [Mk.processEnvVar]
+  generalize (t.map fun c => if c == 46 then 95 else c) = w
+  by_cases h1 : w = Mk.s_platform_python_implementation
+  · subst h1; src_simp [Gen.PySrc.process_env_var, PyRt.contains, in_, node_init, Mk.processEnvVar, s_ppi, s_pi, ofNode]
+  · by_cases h2 : w = Mk.s_python_implementation
+    · subst h2; src_simp [Gen.PySrc.process_env_var, PyRt.contains, in_, node_init, Mk.processEnvVar, s_ppi, s_pi, ofNode]
+    · src_simp [Gen.PySrc.process_env_var, PyRt.contains, in_, node_init, Mk.processEnvVar, s_ppi, s_pi, ofNode, h1, h2,
+        Ne.symm h1, Ne.symm h2]
 
 theorem str_replace_dot (t : Str) : PyRt.str_replace (.str t) (.str (ofString ".")) (.str (ofString "_")) =
     .ok (.str (t.map fun c => if c == 46 then 95 else c)) := by
